@@ -68,6 +68,9 @@ checks.update({
 })
 # additions of the eighth round (appended to the level texts above)
 EXTRA = {
+ "C04": "Since the ninth round: long-lived connections (90-170 frames, more than 8 KB of misaligned traffic) in 3 % of the runs.",
+ "C06": "Since the eighth round: sub-packaged 0x0801 messages; the multimedia id a 0x8800 must echo is taken from the bytes the terminal sent, not from the body the server delivered.",
+ "C14": "Since the ninth round: an abandoned transfer restarted with a new packet 1, judged on its own 60 s clock.",
  "C03": "Since the eighth round the 0x0200 handler is, in 35 % of the runs, the README's location type with the five vendor extension parsers (0x64-0x70) as per-connection receivers, and location bodies carry vendor items: these parsers are now reached (four defects repaired, one known finding: the 0x66 parser reads one byte past its item). jt1078.Decode stays undecided.",
  "C09": "Since the eighth round: unanswered platform commands while messages are held, stalled transfers whose held packets precede a re-request, and the rule that a delivered message's header is never used to encode a re-request or a platform command.",
  "C11": "Since the eighth round: 30 % of the runs install a WithKeyFunc whose keys differ from the phone numbers, part of them without a key for heartbeats (served, not joined; the next message with a key joins).",
